@@ -285,7 +285,8 @@ class RpcServer(PduPeer):
         # padding octets are not required to be zero: a non-zero fill makes un-stripped padding observable
         body = stub + bytes([self.knobs.get("pad_fill", 0xA5)]) * pad
         sig_len = st.acceptor.sig_size
-        pdu = bytearray(self.codec.build_response(body, ctx_id=ctx_id, call_id=call_id, alloc_hint=len(body),
+        ah = {"padded": len(body), "unpadded": len(stub), "zero": 0}[self.knobs.get("alloc_hint", "padded")]
+        pdu = bytearray(self.codec.build_response(body, ctx_id=ctx_id, call_id=call_id, alloc_hint=ah,
                                             auth={"type": st.auth_type, "level": st.auth_level, "pad": pad, "ctx": st.auth_ctx,
                                                   "value": b"\x00" * sig_len}))
         off = 24 + len(body)
